@@ -508,6 +508,21 @@ impl Check for C04Check {
             });
         }
         let orders = if n + 1 <= 6 { Orders::All } else { Orders::Structured { shuffles: 24, seed: r.next_u64() } };
+        if index % 2000 == 1005 {
+            // the LARGEST legal packet (79 channels x 511 samples = 81268 bytes) cut at sizes that divide its
+            // length or not, followed by surplus data (one more chunk, or a longer final chunk)
+            let nb = boards::pwb_boards().len();
+            let pwb = PwbGen { board: r.usize(0, nb - 1), chip: r.below(4) as u8, channels: (1..=79).collect(), requested_samples: 511, sample_seed: r.next_u64(), kind: "valid".into() };
+            let len = pwb.payload().len();
+            let divisors: Vec<usize> = (20..=65535usize).filter(|d| len % d == 0).collect();
+            let size = if !divisors.is_empty() && r.chance(2, 3) { *r.pick(&divisors) } else { r.usize(1200, 65535) };
+            let faults = match r.below(4) {
+                0 => vec![],
+                1 => vec![NetFault::GrowLast { extra: *r.pick(&[1usize, 4, 8]), zeros: r.chance(1, 2) }],
+                _ => vec![NetFault::AppendChunk { len: *r.pick(&[1usize, 4, 8, size]), zeros: r.chance(1, 2) }],
+            };
+            return serde_json::to_value(Scn { pwb, chunk_size: size, faults, orders: Orders::Structured { shuffles: 6, seed: r.next_u64() }, all_ids: false }).unwrap();
+        }
         if index % 2000 == 5 {
             // the end of the chunk-id range: a full-size packet (79 channels x 511 samples, > 64 KiB) cut
             // into 65535 one-byte chunks and a last chunk - fault-free, or with one seeded fault
